@@ -29,6 +29,11 @@ func concBodyInit(producers [][]int, limit int, withIdle, withWatch, slowJobs bo
 
 // concBodyOpt: concIdleErrCh = the WaitIdle caller may pass an error channel.
 func concBodyOpt(producers [][]int, limit int, withIdle, withWatch, slowJobs bool, ninit int, concIdleErrCh bool) func() {
+	return concBodyNil(producers, limit, withIdle, withWatch, slowJobs, ninit, concIdleErrCh, -1)
+}
+
+// concBodyNil: job number concNilJob (if >= 0) is a nil func.
+func concBodyNil(producers [][]int, limit int, withIdle, withWatch, slowJobs bool, ninit int, concIdleErrCh bool, concNilJob int) func() {
 	return func() {
 		bg := context.Background()
 		var q *conc.ConcurrentQueue
@@ -37,6 +42,12 @@ func concBodyOpt(producers [][]int, limit int, withIdle, withWatch, slowJobs boo
 			njobs += len(p)
 		}
 		mkJob := func(j int) func() {
+			if j == concNilJob {
+				// a nil job: there is nothing to run, the jobs behind it must still run
+				vsched.CtrSet(c18Ran0+j, 1)
+				vsched.CtrSet(c18Done0+j, 1)
+				return nil
+			}
 			return func() {
 				if vsched.CtrAdd(c18Ran0+j, 1) > 1 {
 					fail("C18.ran-twice", "job %d ran twice", j)
@@ -117,6 +128,15 @@ func concBodyOpt(producers [][]int, limit int, withIdle, withWatch, slowJobs boo
 				errCh = make(chan error, 1)
 				T("X", func() { errCh <- nil })
 			}
+			if concIdleErrCh {
+				// a status poller: Enqueue with no jobs only reports the counts
+				T("Q", func() {
+					for i := 0; i < 2; i++ {
+						qd, rn := q.Enqueue()
+						checkCounts("Enqueue()", qd, rn)
+					}
+				})
+			}
 			T("I", func() {
 				var before []int
 				for j := 0; j < njobs; j++ {
@@ -163,7 +183,13 @@ func concBodyOpt(producers [][]int, limit int, withIdle, withWatch, slowJobs boo
 		}
 		if limit == 1 {
 			// FIFO: jobs of one producer start in enqueue order
-			for _, jobs := range producers {
+			for _, pj := range producers {
+				var jobs []int
+				for _, j := range pj {
+					if j != concNilJob {
+						jobs = append(jobs, j)
+					}
+				}
 				for i := 1; i < len(jobs); i++ {
 					if vsched.Ctr(c18Ord0+jobs[i-1]) > vsched.Ctr(c18Ord0+jobs[i]) {
 						fail("C18.fifo", "limit 1: job %d started before job %d although it was enqueued later", jobs[i], jobs[i-1])
@@ -186,7 +212,10 @@ func init() {
 	}
 	reg("conc-l1-idle", "ConcurrentQueue limit 1: one producer, 3 jobs in every batch split, a WaitIdle caller", 2, 3, concBody([][]int{{0, 1, 2}}, 1, true, false, true))
 	reg("conc-l2-idle", "ConcurrentQueue limit 2: one producer, 3 jobs in every batch split, a WaitIdle caller", 2, 3, concBody([][]int{{0, 1, 2}}, 2, true, false, true))
-	reg("conc-l1-idle-errch", "ConcurrentQueue limit 1: one producer, 2 slow jobs in every batch split, a WaitIdle caller whose error channel receives a nil error (or has no error channel)", 2, 3, concBodyOpt([][]int{{0, 1}}, 1, true, false, true, 0, true))
+	reg("conc-l1-idle-errch", "ConcurrentQueue limit 1: one producer, 2 slow jobs in every batch split, a WaitIdle caller whose error channel receives a nil error (or has no error channel), and a status poller calling Enqueue() with no jobs", 2, 3, concBodyOpt([][]int{{0, 1}}, 1, true, false, true, 0, true))
+	reg("conc-l1-niljob", "ConcurrentQueue limit 1: one producer, slow jobs 0, 2, 3 and a nil job at position 1, every batch split, a WaitIdle caller: the jobs behind the nil job still run, in order, and the queue becomes idle", 2, 3, concBodyNil([][]int{{0, 1, 2, 3}}, 1, true, false, true, 0, false, 1))
+	reg("conc-l2-init5", "ConcurrentQueue limit 2 constructed with 5 initial jobs (more than limit+1: the constructor has to put jobs back), a sixth job enqueued, a WaitIdle caller: per-producer start order, every job exactly once", 1, 2, concBodyInit([][]int{{0, 1, 2, 3, 4, 5}}, 2, true, false, true, 5))
+	reg("conc-l1-init4", "ConcurrentQueue limit 1 constructed with 4 initial jobs: they start in the order given", 2, 3, concBodyInit([][]int{{0, 1, 2, 3}}, 1, true, false, false, 4))
 	reg("conc-l0-idle", "ConcurrentQueue unlimited: one producer, 3 jobs in every batch split, a WaitIdle caller", 1, 2, concBody([][]int{{0, 1, 2}}, 0, true, false, true))
 	reg("conc-l1-watch", "ConcurrentQueue limit 1: one producer, 3 instantaneous jobs in every batch split, a WatchState watcher", 2, 3, concBody([][]int{{0, 1, 2}}, 1, false, true, false))
 	reg("conc-l2-watch", "ConcurrentQueue limit 2: one producer, 3 jobs, a WatchState watcher", 1, 2, concBody([][]int{{0, 1, 2}}, 2, false, true, true))
